@@ -30,7 +30,9 @@ def lit(tag):
 
 
 HOSTILE = ["x ", " x", "x ", " x", "x\t", "x\n", "x\r", "a'b", 'a"b', "a\\b", "#x", "~x", "f[12]", "x{1,2}", "$x", "x$(y)", "a b c",
-           "\udcffx", "x\udcff", "ż€", "-n", "x;y", "x&y", "*", "?", "[x]", "x\\", "'", "x\ny z", " ", "x  ", "\\n"]
+           "\udcffx", "x\udcff", "ż€", "-n", "x;y", "x&y", "*", "?", "[x]", "x\\", "'", "x\ny z", " ", "x  ", "\\n",
+           # text that means something to a formatting / templating step on the way to the printed line
+           "a{}b", "{}", "%s", "{0}", "$1", "\\0"]
 
 
 def structural_trees():
